@@ -296,6 +296,19 @@ def plant_case_twins(rng, n):
     return k
 
 
+def m_move_pin_within_bus(r, b):
+    """the LAST pin of one wire of a bus moved to another wire of the same bus (the cable's pin total stays the same)"""
+    cs = [(c, w) for d in defs_of(b) for c in d.cables if len(c.wires) >= 2 for w in c.wires if len(w.pins)]
+    if not cs:
+        return None
+    c, w = r.choice(cs)
+    p = list(w.pins)[-1]
+    w2 = r.choice([x for x in c.wires if x is not w])
+    w.disconnect_pin(p)
+    w2.connect_pin(p)
+    return "last pin of %s.%s[%d] moved to bit %d of the same bus" % (c.definition.name, c.name, list(c.wires).index(w), list(c.wires).index(w2))
+
+
 def plant_wide(rng, n):
     """A port several hundred bits wide, connected on high bits - inside its definition and on an instance of it."""
     topd = n.top_instance.reference
@@ -477,7 +490,7 @@ def m_add_instance(r, b):
     return "instance added to %s" % h.name
 
 
-MUTATIONS = [m_port_direction, m_port_wider, m_port_narrower, m_port_arrayness, m_cable_wider, m_cable_narrower,
+MUTATIONS = [m_move_pin_within_bus, m_port_direction, m_port_wider, m_port_narrower, m_port_arrayness, m_cable_wider, m_cable_narrower,
              m_outer_other_instance, m_outer_other_port, m_outer_other_bit, m_inner_other_port, m_inner_other_bit,
              m_repoint, m_repoint_twin, m_property_value, m_property_added, m_property_dropped, m_property_field_dropped, m_property_field_added, m_property_appended, m_drop_library, m_add_library, m_drop_definition,
              m_add_definition, m_drop_port, m_add_port, m_drop_cable, m_add_cable, m_drop_instance, m_add_instance]
